@@ -230,7 +230,9 @@ def base_urls():
              "www.", "m.", "www.m.", "amp.", "www", "amp-"]
     paths = ["", "/", "/a", "/a/", "/A/b/", "/index.html", "/a/index.php", "/a/default.aspx", "/index", "/a/indexes.html", "/a/amp", "/a/amp/", "/a.amp", "/a.amp.html",
              "/camp", "/a/../b/./c//d", "/a%2Fb", "/a/INDEX.html", "/a/index.html/"]
-    queries = [None, "id=1", "b=2&a=1", "utm_source=x&id=1", "id=1&utm_campaign=y&page=2", "id=1&amp;page=2", "q=%41&k=a+b", "amp=1&x=1", "x=1&fbclid=abc"]
+    queries = [None, "id=1", "b=2&a=1", "utm_source=x&id=1", "id=1&utm_campaign=y&page=2", "id=1&amp;page=2", "q=%41&k=a+b", "amp=1&x=1", "x=1&fbclid=abc",
+               # an ESCAPED ampersand is data, whatever follows it
+               "q=Tom%26amp%3BJerry&page=2", "q=a%26amp;b", "k%26amp%3B=1"]
     frags = [None, "frag", "/route", "!/route", "!", "/"]
     out = []
     for h in hosts:
